@@ -67,6 +67,8 @@ class SArr:
         return "SArr%s%s" % (self.kind, self.a.shape)
 
     def view(self, a):
+        if self.origin == "torch":
+            return SArr(a, self.kind, "torch")
         return SArr(a, self.kind, self.origin if _np.shares_memory(a, self.a) else None)
 
 
